@@ -1,7 +1,6 @@
 SPECIFICATION TSpec
 CONSTANTS
  Dev = {}
- Mode = "P"
 INVARIANT Mark
 INVARIANT Prog
 POSTCONDITION Accepted
